@@ -64,6 +64,10 @@ def trainings(tier):
         for ng in (2, 3, 4):
             yield l, dict(ngram=ng, alphabet_size=10, coverage=0.5)
     yield SPREAD, dict(ngram=3, alphabet_size=100, coverage=0.5)
+    # the same lists written as `sort | uniq -c` prints them and trained with --prefixcount: all three passes see the same passwords
+    for l in (['ab1'] * 3 + ['abab'] * 2 + ['bbbb'], ['aab'] * 5 + ['ab1ab1', 'a' * 21, 'ab'], ['love'] * 12 + ['dove'] * 3 + ['lovely', 'glove', 'lo']):
+        for ng in (2, 3):
+            yield l, dict(ngram=ng, alphabet_size=10, coverage=0.5, counted=True)
     # rulesets in an encoding other than the platform's: every OMEN file is written and read in the ruleset's encoding
     for l, enc in ((['caf\xe912', 'se\xf1or1', 'm\xfcller', 'cafe12', '\xe9\xe9', 'caf\xe912'], 'latin-1'),
                    (['\u043f\u0430\u0440\u043e\u043b\u044c', '\u043f\u0430\u0440\u043e\u043b\u044c1', 'parol1', '\u043f\u0430'], 'cp1251'),
